@@ -232,6 +232,7 @@ func (mi *muxInstance) serveHTTP(stdw http.ResponseWriter, stdr *http.Request)
     ghost at call[1] Header: gWroteHdr := h
     ghost at call[1] Copy: gWroteBody := n
     invariant[1] resp != nil && header != nil && ref(header) == rwHdr(ifaceVal(stdw)) && resp.Response != nil && resp.Response.Header != nil && ref(resp) == outResp
+    invariant[1] response-headers-untouched: unchanged$1
     invariant[1] copied-so-far: forall j int :: 0 <= j && j < idx$1 ==> (keys$1[j] in header) && header[keys$1[j]] == resp.Response.Header[keys$1[j]]
   end
 
